@@ -280,7 +280,7 @@ func (w *World) absorb() {
 		if c == nil || !c.Done || a.absorbed[c] {
 			continue
 		}
-		if c.Pair != nil && !c.Pair.Done && a.P.Alive {
+		if c.Pair != nil && !c.Pair.Done && a.P.Alive && !(c.Err == nil && (c.Status == 202 || c.Status == 413)) {
 			a.st = "pairwait" // judged once its concurrent duplicate has been answered too
 			continue
 		}
